@@ -55,7 +55,7 @@ func genC11(repo string) (string, error) {
 			return "", err
 		}
 	}
-	for _, fn := range []string{"selectStore", "selectCandidates"} {
+	for _, fn := range []string{"selectStore", "selectCandidates", "selectAvailableLeaderStores"} {
 		fd, _ := sc.Func("RegionScatterer", fn)
 		fmt.Fprintf(&o.sb, "Definition src_%s : string := (* region_scatterer.go *)\n  %s.\n", fn, goast.Q(sc.Src(fd.Body)))
 	}
